@@ -43,5 +43,30 @@ CHECKS = {
                 "the CLI flag->strategy mapping is checked under C10/C18 CLI slices, not here",
     },
 }
+CHECKS["C08"] = {
+    "engine": "tlc-spec", "category": "model_checking", "design_ref": "6/C08, A.1",
+    "technique": "TLA+ MergeSpec enumerated exhaustively by TLC (MergeAlgo = MergeSpec checked as invariant); every case replayed into "
+                 "config.Merge + certificate generation; observations trace-validated by TLC",
+    "text": "Every (profile list, certificate list) pair of the bounded domain (quick: profile<=2 x cert<=3 over 2 OIDs = 51,085; thorough: "
+            "profile<=3 x cert<=4 = 4.9 M plus 3 OIDs) is an initial state of MCMerge.tla: TLC checks that the implementation-shaped "
+            "MergeAlgo equals the declarative MergeSpec and four structural invariants, and writes the case with the required result. The driver "
+            "replays each case into the real config.Merge with real v1.CustomExtension values, compares inputs before/after, generates a "
+            "certificate from the merged configuration (must fail iff a content-less entry remains, otherwise carry exactly the effective list), "
+            "and TLC re-judges a sample and all mismatches from the logged inputs. Finite domain -> exhaustive enumeration.",
+    "note": "trusted: TLC + Json/SequencesExt modules; extension identity abstracted to (OID, content) with v1.CustomExtension as carrier; "
+            "random longer lists of the other real extension types are exercised under C06",
+}
+CHECKS["C09"] = {
+    "engine": "tlc-spec", "category": "model_checking", "design_ref": "6/C09, A.2",
+    "technique": "TLA+ MustReject/MustAccept enumerated exhaustively by TLC per profile; every (profile, subject) pair replayed into "
+                 "config.ParseRDNSequence + config.Validate; observations trace-validated by TLC",
+    "text": "Every profile (attribute lists up to length 3 quick / 4 thorough over {CN,O,C,1.2.3.4} x optional x allowOther, plus 'no list') is an "
+            "initial state of MCSubject.tla; TLC checks the two sentences never contradict, decide every subject when allowOther is false, and "
+            "that the recursive operators equal their declarative definitions, and writes a verdict row over all subjects (length <= 4 / 5 incl. a "
+            "foreign attribute): 0.9 M pairs quick, 36.6 M thorough. The driver runs the real Validate on every pair; silent pairs are only "
+            "checked for panics. A sample and every mismatch are judged again by TLC with explicit profile and subject.",
+    "note": "trusted: TLC + Json module, the shared canonical subject order (cross-checked by the explicit-subject judge); the end-to-end clause "
+            "(a rejected certificate aborts the run before anything is written) is exercised in the C10/C18 filesystem replays",
+}
 for e in ENGINES:
     e["serves_properties"] = sorted(CHECKS)
